@@ -11,8 +11,9 @@ package main
 //                del~<enr>                               table.deleteNode
 //                bad~<idhex>~<valuehex>                  radius cache entry written directly (malformed lengths)
 //                g~<srcid|->~<contentkey>~<ncontent>~<nkeys>   GossipAndReturnPeers
-// abstract ops   E~<pong>~<id>~<present>~<ptype>~<radius|x>   N[~<id>] (no cache effect)   B~<id>~<radius|bad>   G~<src|->~<cid>~<nc>~<nk>~<table records in nodeList order>
-// observations   c=<cached radius of the sender as a number | none | bad>      ok~<returned tags>~<offered tags> / err / panic
+// concrete ops   rad~<32-byte big-endian storage radius | ->    add~<enr> (PortalProtocol.AddEnr)
+// abstract ops   E~<pong>~<id>~<present>~<ptype>~<radius|x>~<own storage radius | ->   A~<id>~<addFoundNode returned true>   N[~<id>] (no cache effect)   B~<id>~<radius|bad>   G~<src|->~<cid>~<nc>~<nk>~<table records in nodeList order>
+// observations   c=<cached radius of the sender as a number | none | bad>[;p=<payload type of the PONG this node answered with>:<radius it announces | x>]      ok~<returned tags>~<offered tags> / err / panic
 import (
 	"crypto/sha256"
 	"fmt"
@@ -60,11 +61,41 @@ func c20nodeAddr(n *enode.Node) *net.UDPAddr {
 
 func c20exec(c *Ctx, keyhex, proto string, permits int, ins []c11ins, ops []string) {
 	inst := hInstanceP(keyhex, "-", proto, permits)
+	store := hStores[inst]
+	store.radius = nil // the storage radius starts at the maximum
+	ownRadius := func() string { return store.Radius().ToBig().Text(16) }
 	hFill(inst, ins)
 	var abs, obs []string
 	for _, op := range ops {
 		f := strings.Split(op, "~")
 		switch f[0] {
+		case "rad": // the storage radius changes (prune): later PONGs must announce the new value
+			if f[1] == "-" {
+				store.radius = nil
+			} else {
+				store.radius = unhx(f[1])
+			}
+			abs = append(abs, "N")
+			obs = append(obs, "-")
+			c.Count("storage_radius_changed")
+		case "add": // PortalProtocol.AddEnr
+			n, err := hNodeFromBytes(unhx(f[1]))
+			if err != nil {
+				panic(err)
+			}
+			before := inst.InTable(n.ID())
+			if pn, m := guard(func() { inst.P.AddEnr(n) }); pn {
+				abs = append(abs, "N")
+				obs = append(obs, "panic "+m)
+				continue
+			}
+			added := 0
+			if !before && inst.InTable(n.ID()) { // addFoundNode returned true
+				added = 1
+			}
+			abs = append(abs, fmt.Sprintf("A~%s~%d", c20idHex(n.ID()), added))
+			obs = append(obs, c20cacheObs(inst, n.ID()))
+			c.Count(fmt.Sprintf("add_enr_already_in_table_%v_added_%d", before, added))
 		case "pi", "po":
 			n, err := hNodeFromBytes(unhx(f[1]))
 			if err != nil {
@@ -75,7 +106,10 @@ func c20exec(c *Ctx, keyhex, proto string, permits int, ins []c11ins, ops []stri
 			var payload []byte
 			decoded := false
 			pong := "0"
+			own := "-"
+			ownPong := ""
 			if f[0] == "pi" {
+				own = ownRadius()
 				if len(msg) == 0 { // handleTalkRequest indexes msg[0] (C01); not this property's subject
 					abs = append(abs, "N")
 					obs = append(obs, "-")
@@ -87,7 +121,8 @@ func c20exec(c *Ctx, keyhex, proto string, permits int, ins []c11ins, ops []stri
 						ptype, payload, decoded = p.PayloadType, p.Payload, true
 					}
 				}
-				if pn, m := guard(func() { inst.HandleTalkRequest(n, c20nodeAddr(n), msg) }); pn {
+				var resp []byte
+				if pn, m := guard(func() { resp = inst.HandleTalkRequest(n, c20nodeAddr(n), msg) }); pn {
 					abs = append(abs, "N")
 					obs = append(obs, "panic "+m)
 					continue
@@ -100,6 +135,17 @@ func c20exec(c *Ctx, keyhex, proto string, permits int, ins []c11ins, ops []stri
 					c.Emit("gs-unobserved %s %s | unobserved", keyhex, proto)
 					inst.WaitPings(10 * time.Minute)
 					return
+				}
+				// the PONG this node answered with: payload type and the radius it announces
+				ownPong = ";p=nil"
+				if len(resp) > 0 && resp[0] == portalwire.PONG {
+					pg := &portalwire.Pong{}
+					if err := pg.UnmarshalSSZ(resp[1:]); err == nil {
+						ownPong = fmt.Sprintf(";p=%d:x", pg.PayloadType)
+						if rb, ok := portalwire.VerifHDecodeRadius(pg.PayloadType, pg.Payload); ok {
+							ownPong = fmt.Sprintf(";p=%d:%s", pg.PayloadType, c20num(rb))
+						}
+					}
 				}
 			} else {
 				pong = "1"
@@ -128,8 +174,8 @@ func c20exec(c *Ctx, keyhex, proto string, permits int, ins []c11ins, ops []stri
 			if inst.InTableOrReplacement(n.ID()) {
 				present = "1"
 			}
-			abs = append(abs, fmt.Sprintf("E~%s~%s~%s~%d~%s", pong, c20idHex(n.ID()), present, ptype, rad))
-			obs = append(obs, c20cacheObs(inst, n.ID()))
+			abs = append(abs, fmt.Sprintf("E~%s~%s~%s~%d~%s~%s", pong, c20idHex(n.ID()), present, ptype, rad, own))
+			obs = append(obs, c20cacheObs(inst, n.ID())+ownPong)
 			c.Count(fmt.Sprintf("event_%s_type_%d_present_%s_decodes_%v", f[0], ptype, present, rad != "x"))
 		case "del":
 			n, err := hNodeFromBytes(unhx(f[1]))
@@ -189,7 +235,7 @@ func c20exec(c *Ctx, keyhex, proto string, permits int, ins []c11ins, ops []stri
 			tl := func(ns []*enode.Node) string {
 				ts := make([]string, len(ns))
 				for i, n := range ns {
-					if v, ok := t.lookup(hEnrBytes(n)); ok {
+					if v, ok := t.lookupNode(n); ok {
 						ts[i] = strconv.Itoa(v)
 					} else {
 						ts[i] = "?"
@@ -481,8 +527,28 @@ func c20case(c *Ctx, r *Rng, keys []string) {
 				t = radiusTypes[len(radiusTypes)-1]
 			}
 			report(n, t, r.Bool(), true)
-			if r.Intn(6) == 0 {
+			switch r.Intn(30) {
+			case 0, 1, 2, 3:
 				gossip()
+			case 5: // the same record is added again (AddEnr): its reported radius must survive
+				ops = append(ops, "add~"+hx(hEnrBytes(n)))
+				gossip()
+			case 6: // a newer record of the same node is added
+				if nn := hRecord(nil, n.ID(), n.IP(), n.UDP(), n.Seq()+1+uint64(r.Intn(2)), 0); nn != nil {
+					ops = append(ops, "add~"+hx(hEnrBytes(nn)))
+					gossip()
+				}
+			case 7, 8: // the storage radius shrinks (or grows back): the next PONG must announce the current value
+				switch r.Intn(4) {
+				case 0:
+					ops = append(ops, "rad~-")
+				case 1:
+					ops = append(ops, "rad~"+hx(make([]byte, 32)))
+				default:
+					v := new(big.Int).Lsh(big.NewInt(1), uint(r.Intn(256)))
+					ops = append(ops, "rad~"+hx(v.FillBytes(make([]byte, 32))))
+				}
+				report(n, radiusTypes[r.Intn(len(radiusTypes))], false, true)
 			}
 		}
 	}
@@ -509,6 +575,8 @@ func c20case(c *Ctx, r *Rng, keys []string) {
 			report(n, ptype, r.Bool(), false)
 		case k < 36:
 			ops = append(ops, "del~"+hx(hEnrBytes(n)))
+		case k == 37: // AddEnr of whatever node is at hand (a table node: no effect on its radius; an outsider: assumed maximum)
+			ops = append(ops, "add~"+hx(hEnrBytes(n)))
 		case k == 36 && r.Intn(3) == 0:
 			ops = append(ops, fmt.Sprintf("bad~%s~%s", hx(n.ID().Bytes()), hx(r.Bytes(r.Pick([]int{0, 1, 31, 33, 32})))))
 		default:
@@ -617,8 +685,8 @@ func runC20(c *Ctx) {
 		c20replay(c, readReplayCases(c.Args[1]))
 		return
 	}
-	n := 400
-	c20seqBudget = 14
+	n := 360
+	c20seqBudget = 12
 	if c.Tier == "thorough" {
 		n = 8000
 		c20seqBudget = 150
